@@ -182,7 +182,8 @@ fn brief_rec(r: &Rec) -> String {
 
 pub fn fuzz_corpus_files() -> Vec<std::path::PathBuf> {
     let mut v = vec![];
-    for d in ["/verif/fuzz/corpus/c12_decode", "/verif/corpus/C12/bytes"] {
+    let home = crate::runner::verif_home();
+    for d in [format!("{}/fuzz/corpus/c12_decode", home), format!("{}/corpus/C12/bytes", home)] {
         if let Ok(rd) = std::fs::read_dir(d) {
             for e in rd.flatten() {
                 if e.path().is_file() {
